@@ -96,6 +96,10 @@ TrBuild ==
   /\ e.op = "build" /\ Build(e.h, e.v)
   /\ Step({}, {"build"} \cup (IF WFAny({}, e.v) THEN {"wf_values"} ELSE {}), "-")
 TrSetBuf == /\ e.op = "setbuf" /\ SetBuf(e.h, e.bytes) /\ Step({}, {"setbuf"}, "-")
+\* the exported named constants have the numbers the RFCs assign (a caller writes rtcp.ECNECT0, not 2)
+TrConsts ==
+  /\ e.op = "consts" /\ UNCHANGED vars
+  /\ Step(IF e.out = ApiConstants THEN {} ELSE { [tag |-> t, dev |-> ""] : t \in {"C03:api_constant", "C04:api_constant", "C07:api_constant"} }, {"build"}, "CONST")
 \* the caller wrote into the spare capacity behind the slices of a packet it holds: the packet is still the same value
 TrScribble ==
   /\ e.op = "scribble"
@@ -297,7 +301,7 @@ TrUnitEnc ==
 TraceNext ==
   /\ l <= Len(Trace)
   /\ \/ TrBuild \/ TrSetBuf \/ TrPick \/ TrReset \/ TrMarshal \/ TrSize \/ TrDest \/ TrHeader \/ TrString
-     \/ TrScribble \/ TrUnmarshal \/ TrUnmarshal2 \/ TrDatagram \/ TrUnitDec \/ TrUnitEnc \/ TrValidate \/ TrCname \/ TrNack \/ TrRemb \/ TrTables \/ TrLen \/ TrMarshalTo
+     \/ TrScribble \/ TrConsts \/ TrUnmarshal \/ TrUnmarshal2 \/ TrDatagram \/ TrUnitDec \/ TrUnitEnc \/ TrValidate \/ TrCname \/ TrNack \/ TrRemb \/ TrTables \/ TrLen \/ TrMarshalTo
 
 TraceSpec == TraceInit /\ [][TraceNext]_tvars
 
